@@ -28,7 +28,8 @@ pub trait RollingValidCmp<T: IsNone>: Vec1View<T> {
         T::Inner: Number,
         f64: Cast<U>,
     {
-        let window = min(self.len(), window);
+        // clamp to the series length, but keep a valid (non-zero) window for an empty series
+        let window = min(self.len().max(1), window);
         let mut min: Option<T::Inner> = None;
         let mut min_idx: Option<usize> = None;
         let mut n = 0;
@@ -107,7 +108,8 @@ pub trait RollingValidCmp<T: IsNone>: Vec1View<T> {
         T::Inner: Number,
         Option<T::Inner>: Cast<U>,
     {
-        let window = min(self.len(), window);
+        // clamp to the series length, but keep a valid (non-zero) window for an empty series
+        let window = min(self.len().max(1), window);
         let mut min: Option<T::Inner> = None;
         let mut min_idx: Option<usize> = None;
         let mut n = 0;
@@ -181,7 +183,8 @@ pub trait RollingValidCmp<T: IsNone>: Vec1View<T> {
         T::Inner: Number,
         f64: Cast<U>,
     {
-        let window = min(self.len(), window);
+        // clamp to the series length, but keep a valid (non-zero) window for an empty series
+        let window = min(self.len().max(1), window);
         let mut max: Option<T::Inner> = None;
         let mut max_idx: Option<usize> = None;
         let mut n = 0;
@@ -260,7 +263,8 @@ pub trait RollingValidCmp<T: IsNone>: Vec1View<T> {
         T::Inner: Number,
         Option<T::Inner>: Cast<U>,
     {
-        let window = min(self.len(), window);
+        // clamp to the series length, but keep a valid (non-zero) window for an empty series
+        let window = min(self.len().max(1), window);
         let mut max: Option<T::Inner> = None;
         let mut max_idx: Option<usize> = None;
         let mut n = 0;
@@ -338,7 +342,8 @@ pub trait RollingValidCmp<T: IsNone>: Vec1View<T> {
         T::Inner: Number,
         f64: Cast<U>,
     {
-        let window = min(self.len(), window);
+        // clamp to the series length, but keep a valid (non-zero) window for an empty series
+        let window = min(self.len().max(1), window);
         let min_periods = min_periods.unwrap_or(window / 2);
         let w_m1 = window - 1; // window minus one
         let mut n = 0usize; // keep the num of valid elements
